@@ -4,6 +4,10 @@
                                                    expected observation after every item and the ghost facts
           lkdriver check <observed file>           re-run the model on the items the harness echoed and compare
                                                    with what the real lock.Manager did after every item
+          lkdriver trace <observed file>           the REAL call/return history of every schedule (invocations = the echoed
+                                                   call items and the epilogue's calls, responses = first F status of a thread /
+                                                   late line / the epilogue call's own result, in item order) judged by the
+                                                   extracted trace predicates of Model/LkTrace.v (lk_trace_verdict)
 
    Scenario file (line oriented, strings hex encoded, "-" = empty string), any number of scenarios:
      scenario <id>
@@ -46,6 +50,13 @@
                                                                observation after item k / at the end of the schedule
                   V <sid> z <n>                                number of V i lines of the schedule
                   (V lines exist for lib/coqeval.py: the same model items are evaluated INSIDE Coq and compared)
+   trace prints   P <sid> <events> fresh=<v> wf=<v> c01=<v> once=<v> fail=<v> giveup=<v>      v: - (holds at every prefix) or
+                                                               <n>@<k>: shortest offending prefix has n events, its last event
+                                                               happened at item / epilogue index k
+                  PL <sid> <pred> <n> <tid>:<kind>:<name>:<key>:<size> ...   c01 only: the live holds at that prefix
+                  PH <sid> <k>:<inv|res>:<tid>:...             the history itself (only for schedules with a failing predicate)
+                  (p_fresh = the model's key assumption read off the history; when it fails the schedule is outside what the
+                   theorems of Proofs/LkTraceP.v speak about)
    Only enumeration, parsing and printing happen here; every state change and every enabledness decision is made by
    extracted Coq code (lstep, lk_enabled, lk_forced, lk_gcpass, no_call_in_flight). *)
 type ostring = string
@@ -556,8 +567,97 @@ let check (file : ostring) =
   finish false;
   close_in ic
 
+
+(* ---- trace: the extracted trace predicates on the real call/return history ---- *)
+(* thread ids of the epilogue's sequential calls: the numbers after the largest thread id of the schedule's own calls
+   (kept small: thread ids are unary numbers on the Coq side) *)
+
+let tok_of_lev = function
+  | EvInv (t, op) -> Printf.sprintf "inv:%d:%s" (int_of_nat t) (String.map (fun c -> if c = ' ' then ':' else c) (toks_of_op op))
+  | EvRes (t, r) -> Printf.sprintf "res:%d:%d:%s" (int_of_nat t) (if r.r_ok then 1 else 0) (tok_of_err r.r_err)
+  | _ -> "?"
+
+let trace (file : ostring) =
+  let ic = open_in file in
+  let sid = ref "" and active = ref false in
+  let evs : (int * lev) list ref = ref [] in        (* newest first *)
+  let called : (int, unit) Hashtbl.t = Hashtbl.create 16 and seen : (int, unit) Hashtbl.t = Hashtbl.create 16 in
+  let cur_k = ref (-1) and in_block = ref false in
+  let bad = ref None and next_tid = ref 1 in
+  let res_of ok e = { r_ok = (ok = "1"); r_err = err_of_tok e } in
+  let finish () =
+    if !active then begin
+      let l = List.rev !evs in
+      let h = List.map snd l in
+      let idx = Array.of_list (List.map fst l) in
+      let show = function
+        | None -> "-"
+        | Some n -> let n = int_of_nat n in Printf.sprintf "%d@%d" n (if n >= 1 && n <= Array.length idx then idx.(n - 1) else -1) in
+      (match !bad with Some m -> Printf.printf "PB %s %s\n" !sid m | None -> ());
+      (match lk_trace_verdict h with
+       | [fr; wf; c01; once; fl; gu] ->
+           Printf.printf "P %s %d fresh=%s wf=%s c01=%s once=%s fail=%s giveup=%s\n" !sid (List.length h)
+             (show fr) (show wf) (show c01) (show once) (show fl) (show gu);
+           (match c01 with
+            | Some n ->
+                let pre = take (int_of_nat n) (obsh h) in
+                Printf.printf "PL %s c01 %d%s\n" !sid (int_of_nat n)
+                  (String.concat "" (List.map (fun (t, op) ->
+                       " " ^ string_of_int (int_of_nat t) ^ ":" ^ String.map (fun c -> if c = ' ' then ':' else c) (toks_of_op op))
+                       (live_holds pre)))
+            | None -> ());
+           if List.exists (fun v -> v <> None) [wf; c01; once; fl; gu] then
+             Printf.printf "PH %s%s\n" !sid (String.concat "" (List.map (fun (k, e) -> Printf.sprintf " %d:%s" k (tok_of_lev e)) l))
+       | _ -> Printf.printf "PB %s verdict-shape\n" !sid)
+    end;
+    active := false in
+  (try
+     while true do
+       let line = input_line ic in
+       try
+         match split_ws line with
+         | ["S"; id] ->
+             finish ();
+             sid := id; active := true; evs := []; Hashtbl.reset called; Hashtbl.reset seen; cur_k := -1; in_block := false; bad := None; next_tid := 1
+         | "I" :: k :: "call" :: t :: kind :: name :: key :: size :: _ when !active ->
+             in_block := false;
+             let tid = int_of_string t in
+             Hashtbl.replace called tid ();
+             if tid >= !next_tid then next_tid := tid + 1;
+             evs := (int_of_string k, EvInv (nat_of_int tid, op_of_toks kind name key size)) :: !evs
+         | "I" :: _ when !active -> in_block := false
+         | ["X"; k] when !active -> cur_k := int_of_string k; in_block := true
+         | ["T"; t; "F"; ok; e] when !active && !in_block ->
+             let tid = int_of_string t in
+             if Hashtbl.mem called tid && not (Hashtbl.mem seen tid) then begin
+               Hashtbl.replace seen tid ();
+               evs := (!cur_k, EvRes (nat_of_int tid, res_of ok e)) :: !evs
+             end
+         | ["E"; k; "late"; t; ok; e] when !active ->
+             in_block := false;
+             let tid = int_of_string t in
+             if Hashtbl.mem called tid && not (Hashtbl.mem seen tid) then begin
+               Hashtbl.replace seen tid ();
+               evs := (int_of_string k, EvRes (nat_of_int tid, res_of ok e)) :: !evs
+             end
+         | "E" :: k :: "call" :: kind :: name :: key :: size :: ok :: e :: _ when !active ->
+             in_block := false;
+             let k = int_of_string k in
+             let tid = nat_of_int !next_tid in
+             incr next_tid;
+             evs := (k, EvRes (tid, res_of ok e)) :: (k, EvInv (tid, op_of_toks kind name key size)) :: !evs
+         | "E" :: _ when !active -> in_block := false
+         | ["Z"] -> finish ()
+         | _ -> ()
+       with Bad m | Failure m -> bad := Some ("parse:" ^ String.map (fun c -> if c = ' ' then '_' else c) m)
+     done
+   with End_of_file -> ());
+  finish ();
+  close_in ic
+
 let () =
   match Array.to_list Sys.argv with
   | [_; "gen"; file; seed] -> (try gen file (int_of_string seed) with Bad m -> prerr_endline ("bad input: " ^ m); exit 2)
   | [_; "check"; file] -> check file
-  | _ -> prerr_endline "usage: lkdriver gen <scenario file> <seed> | lkdriver check <observed file>"; exit 2
+  | [_; "trace"; file] -> trace file
+  | _ -> prerr_endline "usage: lkdriver gen <scenario file> <seed> | lkdriver check <observed file> | lkdriver trace <observed file>"; exit 2
